@@ -17,9 +17,9 @@ type c04Step struct {
 }
 
 type c04Case struct {
-	Combos  []map[string][]string `json:"combos"`
-	VaryAt  [][]string            `json:"vary_at"` // Vary field lines of the k-th origin response
-	Steps   []c04Step             `json:"steps"`
+	Combos []map[string][]string `json:"combos"`
+	VaryAt [][]string            `json:"vary_at"` // Vary field lines of the k-th origin response
+	Steps  []c04Step             `json:"steps"`
 }
 
 var c04Delims = []string{"", "=", "&", ":", ";", ",", ", ", "|", " ", "\t", "\x00", "/", "==", "&&", "%00", "\\", "\"", "'", "-", "_", "."}
